@@ -216,7 +216,7 @@ func (c *c04) RunDesc(desc json.RawMessage) engine.Result {
 	res.Nontrivial = mr.TxOK > 0 && mr.TxFail > 0
 	res.Outcome = shortHash(strings.Join(mr.Res.Chain.ConsensusLog(), "\n"))
 	if len(cs.Seq) == 3 && cs.Seq[0] == 5 && cs.Seq[1] == 7 && cs.Cut == 1 {
-		res.Sample = sim.MustJSON(map[string]interface{}{"sequence": names, "tx_ok": mr.TxOK, "tx_failed": mr.TxFail})
+		res.Sample = sim.MustJSON(map[string]interface{}{"sequence": names, "tx_ok": mr.TxOK, "tx_failed": mr.TxFail, "results": tailOf(mr.Res.Chain.ConsensusLog(), 12)})
 	}
 	return res
 }
